@@ -330,8 +330,8 @@ func runC40(r *simkit.Run) {
 
 	model := &c40Model{msgs: map[string]*c40Msg{}}
 	// property-level memory, independent of the model
-	lastSeen := map[string]c40Obs{}    // msg|lane -> last observed row
-	maxSeq := map[string]uint64{}       // msg -> highest sequence observed
+	lastSeen := map[string]c40Obs{}        // msg|lane -> last observed row
+	maxSeq := map[string]uint64{}          // msg -> highest sequence observed
 	firstResult := map[string]c40Applied{} // msg|eventID -> result of the applying call
 	applied := 0
 	injected := false
